@@ -35,7 +35,7 @@ TABLE = {
     "C15": {"props": "C15.v", "engines": ["e2", "e3"]},
     "C16": {"props": "C16.v", "engines": ["e2", "e3"]},
     "C18": {"props": "C18.v", "engines": ["e1"], "oracle": ["C18"], "components": ["step"]},
-    "C19": {"props": "C19.v", "engines": ["e1", "e2"], "oracle": ["C19"], "components": ["step"]},
+    "C19": {"props": "C19.v", "engines": ["e1", "e2"], "oracle": ["C19"], "components": ["step"], "level": "other"},
     "C20": {"props": "C20.v", "engines": ["e1"], "oracle": ["C20"], "components": ["convert"]},
 }
 
@@ -269,9 +269,13 @@ def run(prop, tier, seed, t0):
         "oracle_failures": len(hits), "known_findings_reproduced": len(known_hit),
         "source_facts": scan,
     }
+    level = cfg.get("level", "proof")
+    if level == "other":
+        cov["explanation"] = ("by construction in the model (run and gen are functions) + correspondence of the implementation with that function "
+                              "in separate processes + byte identity of the generated text within and across processes + ordered-collections scan")
     if not proof_ok:
         cov["explanation"] = "a proof obligation does not check on this tree: " + "; ".join(broken)[:600]
-    C.write_evidence(prop, tier, seed, "proof" if proof_ok else "other", cov,
+    C.write_evidence(prop, tier, seed, level if proof_ok else "other", cov,
                      ["model fidelity is established by differential execution, not proved",
                       "usize arithmetic is modelled on unbounded N with explicit checks where the code can overflow"],
                      time.time() - t0, len(violations))
